@@ -364,6 +364,9 @@ next:
 				for n += nn; nn != 0 && clean && err == nil; n += nn {
 					nn, err, clean = streamTo(i, w)
 				}
+				if err != nil {
+					clean = false // the chunks that follow are still on the connection
+				}
 			}
 			return n, err, clean
 		}
